@@ -742,6 +742,23 @@ Proof.
   apply is_perm_b_ok. reflexivity.
 Qed.
 
+(* the lambda of the model's run IS lam_seq: spe_coords = the loop fed with run_lambdas T (#iterations) 1, and at Qc (the
+   field the extracted model runs at) entry t of run_lambdas, read as a rational, is lam_seq T t *)
+Theorem spe_coords_uses_run_lambdas : forall (F : Type) (Fo : FieldOps F)
+    (T : nat) (tol alpha : F) (R : nat -> nat -> F) steps lam (Y : pts),
+  spe_coords T tol alpha R steps lam Y =
+  spe_coords_lams tol alpha R steps (run_lambdas T (length steps) lam) Y.
+Proof. exact (@spe_coords_uses_run_lambdas_proof). Qed.
+Print Assumptions spe_coords_uses_run_lambdas.
+
+Theorem spe_run_lambda_is_lam_seq : forall T n t, t < n ->
+  (this (nth t (@run_lambdas Qc QcOps T n fone) fzero) == lam_seq T t)%Q.
+Proof. exact spe_run_lambda_is_lam_seq_proof. Qed.
+Print Assumptions spe_run_lambda_is_lam_seq.
+Example spe_run_lambda_is_lam_seq_nonvacuous :
+  2 < 3 /\ this (nth 2 (@run_lambdas Qc QcOps 4 3 fone) fzero) = (9 # 16)%Q.
+Proof. split; [lia|vm_compute; reflexivity]. Qed.
+
 (* VALIDATION of the Z-level binary64 rounding model (Spe_Sched_Model.b64_round / sched_q) against Coq's primitive
    binary64 floats: `floor(0.04 * N * N)` computed with PrimFloat.mul equals sched_q N for every N <= 2048 (complete
    enumeration).  This is the ONLY statement of this file whose Print Assumptions is not "Closed under the global
